@@ -244,7 +244,7 @@ def simplify_points(case):
 
 
 def on_split_boundary(cases, pdict):
-    """[(name, threshold)]: the output excludes name == threshold in *every* case by a condition that
+    """[(name, threshold text)]: the output excludes name == threshold in *every* case by a condition that
     comes from dividing by a factor -- either the cases split on its sign (some carry
     'name > threshold', the others 'name < threshold') or every case carries 'name != threshold' --
     and the point has name == threshold exactly.  Read from the output text only to *classify* a
@@ -255,18 +255,27 @@ def on_split_boundary(cases, pdict):
         for l in E.text_lines(c):
             try:
                 lhs, cmp, rhs = E.split_line(l)
-                if cmp in ('<', '>', '!=') and lhs in pdict and pdict[lhs] == float(rhs):
-                    found.add((lhs, float(rhs), cmp))
-            except ValueError:
+                if cmp in ('<', '>', '!=', '<=', '>='):
+                    # the threshold may be a number ('x1 > 0') or an expression ('x1 > -1.0*x2': the factor x1 + x2)
+                    lv, _, rv = E.line_sides(l, pdict)
+                    if lv == rv:
+                        found.add((lhs.strip(), rhs.strip(), cmp))
+            except (ValueError, E.Undefined, NameError):
                 pass
         per_case.append(found)
     out = []
     for (name, t) in sorted(set((n_, t_) for f in per_case for (n_, t_, _) in f)):
         dirs = [set(c for (n_, t_, c) in f if (n_, t_) == (name, t)) for f in per_case]
-        if not all(dirs):
+        strict = [d & {'<', '>', '!='} for d in dirs]
+        if not all(strict):
             continue
-        kinds = set().union(*dirs)
-        if kinds == {'!='} or (len(cases) >= 2 and {'<', '>'} <= kinds):
+        kinds = set().union(*strict)
+        # the signature of an added sign condition (as opposed to an input line that came out with the wrong
+        # strictness): '!=' ; both signs over several cases ; or - when contradictory sign cases were merged away and
+        # one sign survives - the strict condition stands next to the same line in its non-strict form
+        # ('x0 <= 0' from the input and 'x0 < 0' from the division, in one case)
+        twin = all(('<' in d and '<=' in d) or ('>' in d and '>=' in d) for d in dirs)
+        if kinds == {'!='} or (len(cases) >= 2 and {'<', '>'} <= kinds) or twin:
             out.append([name, t])
     return out
 
@@ -431,9 +440,13 @@ def run_simplify(case, ctx):
             if system[a][1] == system[b][1]:
                 ctx.label('opposed-pair' if system[a][3] == system[b][3] else 'band')
 
+    far = any(abs(float(c_[1])) >= 1e15 for r in system for c_ in E.subtrees(r, 'const')) or \
+        any(abs(float(l_[2] or 0.0)) >= 1e15 for r in system for l_ in E.subtrees(r, 'lin'))
+    if far: ctx.label('far-pole')
     cases = call_simplify(case, ctx, names, variables, text)
     if cases is None:
         return
+    if far: ctx.label('far-pole:result')
     for c in cases:
         for l in E.text_lines(c):
             ctx.expect(E.comparator(l) != '', 'C12.simplify_wellformed', lambda: dict(input=text, output=cases, line=l))
